@@ -108,7 +108,7 @@ def run_miri(tier):
         flags = [[], ["--two"], ["--set", "--two"], ["--entry"]][i % 4]
         jobs.append((p, "heap", base + ["random", "--elem", "heap", "--seed", str(100 + i), "--events", "60", "--runs", "2"] + flags + ["--out", p]))
     p = os.path.join(outdir, "faults.miri.ndjson")
-    jobs.append((p, "heap", base + ["faults", "--elem", "heap", "--seed", "5", "--states", "3" if tier == "quick" else "12", "--out", p]))
+    jobs.append((p, "heap", base + ["faults", "--elem", "heap", "--seed", "5", "--first", "0" if tier == "quick" else "4", "--states", "3" if tier == "quick" else "12", "--out", p]))
     # build once (serial), then run in parallel
     r = subprocess.run(["cargo", "+nightly", "miri", "run", "--offline", "--target-dir", "target-miri", "--", "help"], cwd=HARNESS, env=env,
                        stdout=subprocess.PIPE, stderr=subprocess.STDOUT, text=True)
@@ -255,18 +255,18 @@ def record_suite(suite, tier, seed, key):
             elif mode == "diff":
                 pb = p.replace(".ndjson", ".rel.ndjson")
                 cmd = ["sh", "-c", "timeout 300 %s random --elem %s --seed %d --runs %d --events %d %s --out %s && timeout 300 %s run --elem %s --script %s --out %s"
-                       % (drive_bin("debug"), elem, sd, min(chunk, nruns - c), nev, " ".join(flags), p, drive_bin("release"), elem, p, pb)]
+                       % (drive_bin("debug"), elem, sd, min(chunk, nruns - c), nev, " ".join(flags + ["--first", str(c)]), p, drive_bin("release"), elem, p, pb)]
             elif mode == "tomb":
-                cmd = ["timeout", "600", drive_bin(profile), "tomb", "--elem", elem, "--seed", str(sd), "--runs",
+                cmd = ["timeout", "600", drive_bin(profile), "tomb", "--elem", elem, "--seed", str(sd), "--first", str(c), "--runs",
                        str(min(chunk, nruns - c))] + flags + ["--out", p]
             elif mode == "meta":
-                cmd = ["timeout", "600", drive_bin(profile), "meta", "--elem", elem, "--seed", str(sd), "--cases",
+                cmd = ["timeout", "600", drive_bin(profile), "meta", "--elem", elem, "--seed", str(sd), "--first", str(c), "--cases",
                        str(min(chunk, nruns - c))] + flags + ["--out", p]
             elif mode == "faults":
-                cmd = ["timeout", "600", drive_bin(profile), "faults", "--elem", elem, "--seed", str(sd), "--states",
+                cmd = ["timeout", "600", drive_bin(profile), "faults", "--elem", elem, "--seed", str(sd), "--first", str(c), "--states",
                        str(min(chunk, nruns - c))] + flags + ["--out", p]
             else:
-                cmd = ["timeout", "300", drive_bin(profile), "random", "--elem", elem, "--seed", str(sd), "--runs",
+                cmd = ["timeout", "300", drive_bin(profile), "random", "--elem", elem, "--seed", str(sd), "--first", str(c), "--runs",
                        str(min(chunk, nruns - c)), "--events", str(nev)] + flags + ["--out", p]
             jobs.append((p, cmd))
         with cf.ThreadPoolExecutor(max_workers=8) as ex:
@@ -649,7 +649,7 @@ def write_evidence(pid, tier, seed, mcs, traces, violations, drift, notes, t0, n
         evaluations=stats["events"],
         distinct_nontrivial=len(stats["split_states"]),
         rule="one evaluation = one public call executed on the real crate and judged by TLC against TraceRef (property monitors) "
-             "and TraceCount (strict); distinct_nontrivial = distinct structural states (main buckets/items/capacity, old "
+             "TraceCount and TraceGriddle (strict, counter and content level); distinct_nontrivial = distinct structural states (main buckets/items/capacity, old "
              "buckets/items) observed while a resize was pending",
         events_while_split=stats["split_events"],
         ops=stats["ops"],
